@@ -5,6 +5,8 @@
 #include <eigen3/Eigen/Sparse>
 #include <limits>
 
+#include "utils/verif_hooks.hpp"
+
 namespace coloquinte {
 NetModel::Parameters::Parameters() {
   netModel = NetModelOption::BoundToBound;
@@ -644,10 +646,19 @@ std::vector<float> NetModel::solveWithPenalty(
     const std::vector<float> &netPlacement,
     const std::vector<float> &placementTarget,
     const std::vector<float> &penaltyStrength, const Parameters &params) const {
+  COLOQUINTE_VERIF_POINT("solve:begin", this);
   MatrixCreator builder = MatrixCreator::create(
       *this, netPlacement, params.approximationDistance, params.netModel);
   builder.addPenalty(netPlacement, placementTarget, penaltyStrength,
                      params.penaltyCutoffDistance);
+  COLOQUINTE_VERIF_POINT("solve:built", this);
+#ifdef COLOQUINTE_VERIF
+  std::vector<float> verifRet =
+      builder.solve(params.tolerance, params.maxNbIterations);
+  COLOQUINTE_VERIF_POINT("solve:result", &verifRet);
+  COLOQUINTE_VERIF_POINT("solve:end", this);
+  return verifRet;
+#endif
   return builder.solve(params.tolerance, params.maxNbIterations);
 }
 
